@@ -7,6 +7,7 @@ import B2Z.Model.Sched
 import B2Z.Model.Regions
 import B2Z.Model.IndexBytes
 import B2Z.Model.Icf
+import B2Z.Model.Pipeline
 /-! JSON line-protocol driver: one request object per line in, one JSON value per line out.
     Only `Model.*` (core Lean) is imported, so this also builds as a native executable. -/
 open Lean
@@ -280,6 +281,19 @@ def handle (j : Json) : Except String Json := do
     let s := B2Z.storeSummary minInt parts
     let o : Option Int → Json := fun x => match x with | none => Json.null | some v => Json.num (JsonNumber.fromInt v)
     pure (Json.mkObj [("max_number", Json.num (JsonNumber.fromNat s.maxNumber)), ("min_value", o s.minV), ("max_value", o s.maxV)])
+  | "pipe.run" =>
+    let vals ← intList (← j.getObjVal? "vals")
+    let eparts ← natList (← j.getObjVal? "explode_parts")
+    let sizes ← natList (← j.getObjVal? "sizes")
+    let maxBytes ← reqNat j "max_bytes"; let chunk ← reqNat j "chunk"; let encp ← reqNat j "encode_parts"
+    let cfg : Pipe.Cfg := { explodeParts := eparts, sizes := fun i => sizes.getD i 0, maxBytes := maxBytes,
+                            chunk := chunk, encodeParts := encp, maxChunks := optNat j "max_chunks" }
+    match B2Z.genPartitionsE vals.length chunk encp (optNat j "max_chunks") with
+    | none => pure (Json.str "error")
+    | some ps =>
+      let arr := Pipe.pipeline cfg (fun x => x) vals ps.reverse
+      pure (Json.arr ((List.range vals.length).map fun i =>
+        match arr i with | none => Json.null | some v => Json.num (JsonNumber.fromInt v)).toArray)
   | _ => throw s!"unknown op {op}"
 
 def handleLine (line : String) : String :=
